@@ -60,7 +60,7 @@ def register(reg):
                  ("entries_are_the_memory_only_optimum",
                   "forall(1, mmax + 1, lambda m: forall(0, lmax + 1, lambda l: result[m][l] == OPT0(m, l, uf, ub)))"),
                  ("row_0", "len(result[0]) >= 1 and result[0][0] == ub")],
-        frame=[], props=("C05", "C07", "C17"), exc_props={"*": ("C07", "C17")},
+        frame=[], props=("C05", "C07", "C17", "C19"), exc_props={"*": ("C07", "C17")},
         globals={"__name__": "'checkpoint_schedules.hrevolve_sequences.revolve'"},
         hints={"value": [("not_above_optimum", "value <= OPT0(m, l, uf, ub)"),
                          ("use", "OPT0.upper", ["m", "l - value__argmin - 1", "value__argmin", "uf", "ub"]),
